@@ -38,6 +38,11 @@ pub const PINNED: &[(&str, &str)] = &[
     ("dashes-open-quote", "> ---\n>\n> > ---\n\n# h\n\n---\n\nlast\n"),
     ("image-in-ref-text", "para\n\n[![alt](i.png) text](n2)\n"),
     ("title-with-link", "# About [x](n2)\n\n[old](n1)\n"),
+    // pinned inputs without a finding (clean on the current tree): items that carry nothing in front of numbered items that
+    // do - the numbers restart at 1, or a nested list right after the item's text would be read as that text -, and item
+    // texts that begin with numerals outside ASCII
+    ("empty-item-before-numbered-items", "- a\n  1. >\n  2. b\n\n1. c\n   1. >\n   2. d\n2. e\n"),
+    ("item-text-non-ascii-numeral", "- ٣ apples\n- ½ cup\n\n1. １日目 arrival\n2. ① first\n"),
 ];
 
 fn to_state(texts: &BTreeMap<String, String>) -> HashMap<String, String> {
